@@ -460,7 +460,9 @@ def cases(tier):
     big = [10003] if tier == 'quick' else [10003, 99990]      # with TER and the second molecule the last serial is 99994: the five-digit limit (beyond it bonds are not claimed)
     for n in big:
         # serial numbers crossing the column width: 3 free bond flags per case, the other flags pinned (2 pinnings)
-        for pinned in ({'0': True, '1': True, '2': True, '3': True}, {'3': False, '4': True, '5': True, '6': True}):
+        pinnings = ({'0': True, '1': True, '2': True, '3': True}, {'3': False, '4': True, '5': True, '6': True}) if n < 50000 else \
+            ({'0': True, '1': True, '2': True, '3': True, '4': True}, {'0': False, '3': False, '4': True, '5': True, '6': True})
+        for pinned in pinnings:
             out.append({'fn': 'check_pdb_conect', 'part': {'n': n, 'pinned': pinned}, 'label': 'pdb-conect[%d atoms %s]' % (n, sorted(pinned)),
                         'timeout': 1800, 'path_timeout': 600})
     gro_windows = [(-3, 3), (9998, 10002), (99998, 100002)] if tier == 'quick' else [(-10001, -9998), (-12, 12), (9995, 10005), (99995, 100005)]
